@@ -43,7 +43,23 @@ func CheckC12(t Target, src *choice.Src, st *Stats) *Violation {
 	case 6:
 		name = "byte-mutation"
 		w = GenWorld(src, WOpts{Flags: true, Fake: src.Bool("fake"), Defects: src.Bool("def")})
-		mutateBytes(src, w)
+		if src.Chance("linebreaks", 1, 4) {
+			// other line-break conventions (CR only, NEL, LS, PS, CRLF), in files with and without defects, plus
+			// values that look like fragments of a diagnostic
+			name = "line-breaks"
+			brk := choice.Pick(src, "linebreak", []string{"\r", "\u0085", "\u2028", "\u2029", "\r\n", "\n\r"})
+			for i := range w.Files {
+				if src.Chance("linebreak.file", 2, 3) {
+					c := strings.ReplaceAll(w.Files[i].Content, "\n", brk)
+					if src.Bool("linebreak.bad") {
+						c += brk + "services: {x: {scope: \"line 40: shared\", todo: [line 7: x]}}" + brk + "parameters: [" + brk
+					}
+					w.Files[i].Content = c
+				}
+			}
+		} else {
+			mutateBytes(src, w)
+		}
 	case 7:
 		name = "pathological-names"
 		w = pathologicalWorld(src)
@@ -74,6 +90,11 @@ func CheckC12(t Target, src *choice.Src, st *Stats) *Violation {
 	case 9:
 		name = "error-read-faults"
 		w = GenWorld(src, WOpts{Flags: true, LayoutFault: true, Defects: src.Bool("def")})
+		if src.Chance("persistent", 1, 4) {
+			// a condition that does not go away: every operation of one kind fails for the whole run
+			pk := choice.Pick(src, "persist.kind", [][2]string{{"rename", "EBUSY"}, {"rename", "ETXTBSY"}, {"create-temp", "EAGAIN"}, {"open-r", "EINTR"}, {"write", "EAGAIN"}, {"stat", "EIO"}, {"remove", "EBUSY"}, {"close-w", "EINTR"}})
+			w.Persist = &simrt.Fault{OpKind: pk[0], Kind: pk[1]}
+		}
 		n := src.Range("nf", 1, 3)
 		for i := 0; i < n; i++ {
 			ok := choice.Pick(src, "fop", []string{"open-r", "read", "open-w", "write", "close-w", "close-r", "stat", "stat", "rename", "create-temp"})
